@@ -21,8 +21,8 @@ RULE = ("families of 1-3 well-formed sequences x <=4 notes, same and different c
 ASSUMPTIONS = ["models: SCoda.mergeAbs + SCoda.normalise (Seq.mergeSeq), tied by correspondence"]
 
 
-def merged(rels, order):
-    seqs = [P.seq_of_rel(rels[i]) for i in order]
+def merged(rels, order, states=None):
+    seqs = [P.seq_in_state(rels[i], (states or {}).get(i, "rel")) for i in order]
     seqs[0].merge(seqs[1:])
     return seqs[0]
 
@@ -44,7 +44,8 @@ def o_merge(inp):
         if wf_violations(tr) or any(on >= off for (_, _, on, off, _) in notes_of(tr)):
             return [("~skip:not-well-formed", "")]
     try:
-        s = merged(rels, list(range(len(rels))))
+        sts = {int(k): v for k, v in (inp.get("states") or {}).items()}
+        s = merged(rels, list(range(len(rels))), sts)
     except Exception as e:
         return [("raises", f"{type(e).__name__}: {e}")]
     out = [from_real(m) for m in s.rel._messages]
@@ -65,7 +66,7 @@ def o_merge(inp):
     shapes = None
     for order in itertools.permutations(range(len(rels))):
         try:
-            so = merged(rels, list(order))
+            so = merged(rels, list(order), sts)
         except Exception as e:
             fails.append(("order", f"order {order} raised {type(e).__name__}"))
             continue
@@ -93,14 +94,33 @@ def generate(ctx):
                 rels.append([]); allnotes.append([])
                 continue
             r, notes = G.gen_wf_rel(rng, n_notes=rng.randint(0, 4), channels=chans, pitches=[60, 62], max_tick=80, max_dur=40)
+            if rng.random() < 0.25:
+                r = G.unconsolidate(rng, r)
+                ctx.count("rel:unconsolidated")
             rels.append(r); allnotes.append(notes)
         keys = [set((n[0], n[1]) for n in ns) for ns in allnotes]
         common = any(keys[a] & keys[b] for a in range(k) for b in range(a + 1, k))
         ctx.case(rels, common)
         ctx.count("inputs:%d" % k)
         ctx.check("merge", {"rels": rels})
+        if i % 4 == 0:
+            ctx.count("wrapper-states")
+            ctx.check("merge", {"rels": rels, "states": {str(j): rng.choice(P.SEQ_STATES) for j in range(len(rels))}})
         a0 = [from_real(m) for m in P.seq_of_rel(rels[0]).abs._messages]
         others = [[from_real(m) for m in P.seq_of_rel(r).abs._messages] for r in rels[1:]]
         ctx.corr("seq", P.op_seq(("rel", rels[0]), [("merge", others), ("readAbs",), ("readRel",)]))
         ctx.corr("merge", P.op_merge(a0, others))
         ctx.sample({"rels": [r[:6] for r in rels]})
+    # exhaustive small scope: every pair of relative lists of <= 1 (quick) / <= 2 (thorough) messages, merged both ways
+    small = list(G.enum_rel(2 if ctx.thorough else 1))
+    for r0 in small:
+        for r1 in small:
+            ctx.count("small-scope")
+            ctx.check("merge", {"rels": [r0, r1]})
+            try:
+                a0 = [from_real(m) for m in P.seq_of_rel(r0).abs._messages]
+                a1 = [from_real(m) for m in P.seq_of_rel(r1).abs._messages]
+            except Exception:
+                continue
+            ctx.corr("merge", P.op_merge(a0, [a1]))
+
